@@ -3,12 +3,15 @@
   Proved here (both configurations, all histories): the unspent-set checksum is exactly the
   xor of the snapshot hashes of the unspent outputs; the address-index height and the history's parsed
   sequence always equal the head sequence (so the start-up rebuilds are no-ops); pool operations never
-  touch any derived structure.  The per-address index, the history buckets, balances and block queries
-  are carried by the correspondence: the harness dumps every one of these views from the real node after
+  touch any derived structure; the per-address unspent index (unspent_pool_addr_index, poolAddrIndex.adjust
+  in two passes) lists for every address exactly the ids of that address's unspent outputs after every
+  history, so an address-indexed lookup returns the same outputs as a scan of the unspent set.
+  The history buckets, balances and block queries are carried by the correspondence: the harness dumps every one of these views from the real node after
   EVERY op and the driver recomputes them from the model (lean/Sky/Ledger/Drv.lean `digest`).
 -/
 import Sky.Ledger.Run
 import Sky.Ledger.Xor
+import Sky.Ledger.AddrIndex
 namespace Sky.Props.C07
 open Sky Sky.Ledger
 
@@ -85,5 +88,29 @@ theorem pool_ops_keep_derived (s : State) (op : Op) (h : ∀ b, op ≠ .exec b) 
   rcases applyOp_same_or_exec s op with hs | ⟨b, hb, _⟩
   · exact hs
   · exact absurd hb (h b)
+
+/-- after EVERY history the per-address index is exact: `id` is listed under address `a` iff some
+unspent output with that id belongs to `a` -/
+theorem addr_index_exact_after_run {G : Nat} {g : Block} {cfg : Cfg} (s0 : State) (ops : List Op)
+    (h0 : Good G g cfg s0) (hai : AidxOK s0) (hwf : ∀ op ∈ ops, OpOK op) (a : Addr) (id : Id) :
+    id ∈ aidxGet (run s0 ops).aidx a ↔ ∃ u ∈ (run s0 ops).unspent, u.addr = a ∧ u.id = id := by
+  rw [aidx_after_run s0 ops h0 hai hwf a id]
+  exact mem_idsOfAddr
+
+/-- one executed block keeps the index exact (the step lemma, stated on its own) -/
+theorem addr_index_step {s s' : State} {b : Block} (hnd : (s.unspent.map (·.id)).Nodup)
+    (hai : AidxOK s) (h : execSigned s b = .ok s') : AidxOK s' := exec_preserves_aidx hnd hai h
+
+/-- the empty index over the empty unspent set is exact (the state a fresh database starts from) -/
+example (s : State) (h1 : s.aidx = []) (h2 : s.unspent = []) : AidxOK s := by
+  intro a id; rw [h1, h2]; simp [aidxGet, idsOfAddr]
+
+/-- the state right after genesis (one output, one index row) is exact — the hypothesis of
+`addr_index_exact_after_run` is met by the state every node starts from -/
+example (s : State) (u : Ux) (h1 : s.aidx = [(u.addr, [u.id])]) (h2 : s.unspent = [u]) : AidxOK s := by
+  intro a id; rw [h1, h2]
+  by_cases h : u.addr = a
+  · simp [aidxGet, idsOfAddr, h]
+  · simp [aidxGet, idsOfAddr, h]
 
 end Sky.Props.C07
